@@ -87,6 +87,11 @@ func (k Keeper) ValidateValidatorStaking(ctx sdk.Ctx, validator types.Validator,
 	if !validator.IsUnstaked() {
 		return types.ErrValidatorStatus(k.codespace)
 	}
+	// a validator convicted of double signing stays out for good: without this check it could stake,
+	// unstake, be removed and come back as a brand new, unjailed validator
+	if info, found := k.GetValidatorSigningInfo(ctx, validator.Address); found && info.Tombstoned {
+		return types.ErrValidatorTombstoned(k.codespace)
+	}
 	if amount.LT(sdk.NewInt(k.MinimumStake(ctx))) {
 		return types.ErrMinimumStake(k.codespace)
 	}
